@@ -360,7 +360,13 @@ def value(vx, env):
     if h == "i":
         return env.cls(a[0])()
     if h == "v":
-        return a[0]
+        v = a[0]
+        # equal-but-not-identical objects: a dispatcher that compares with `is` must not get away with it
+        if type(v) is int and abs(v) > 256:
+            return int(str(v))
+        if type(v) is str and len(v) > 1:
+            return "".join(list(v))
+        return v
     if h == "mi":
         return env.cls("MyInt")(a[0])
     if h == "ms":
